@@ -119,6 +119,11 @@ CHECKS = {
         "units": [unit("c13-root", "root", ["zz_verif_c13_test.go", "zz_verif_c12_test.go", "zz_verif_c01_test.go"], "^TestVerifC13", shards={"quick": 12, "thorough": 16})],
         "assumptions": [],
     },
+    "C06": {
+        "level": "fault_enumeration",
+        "units": [unit("c06-root", "root", ["zz_verif_c06_test.go", "zz_verif_c11_test.go"], "^TestVerifC06", shards={"quick": 16, "thorough": 16})],
+        "assumptions": ["with a keyshare contribution the commitment proof is completed by the keyshare server; that exchange is C14's"],
+    },
     "_FIX": {
         "level": "other",
         "units": [unit("genfix", "root", [], "^TestVerifGenFixtures$", env={"VERIF_GENFIX": "1"}, timeout=1800)],
